@@ -331,6 +331,54 @@ fn alias_stage_box(a: &mut Acc) {
     cleanup("c20a");
 }
 
+/// pipelines in which the tags name DIFFERENT romanisation files: the root's file has only an `@into` section (how the lexicon is read), a
+/// daughter's only a `@from` section (how the result is written). With these the stages compose exactly: the words `seq` writes for the leaf
+/// equal one library run of the rule history with the root's deromaniser and the leaf's romaniser, and that is what `conv tag leaf -r` must export
+fn pipeline_alias_box(a: &mut Acc) {
+    const INTO_ONLY: &str = "@into\n    q > k\n    c > t\n";
+    const FROM_ONLY: &str = "@from\n    ð > dh\n    β > bh\n";
+    let words = "pa.ta\nqa.ca.ta\nca.pa.qa";
+    let mut n = 0;
+    // which tags name which file: (root, mid, leaf) in {none, into-only, from-only}; the deromaniser that counts is the root's, the romaniser the queried tag's
+    for root_al in [0usize, 1] { for mid_al in [0usize, 2] { for leaf_al in [0usize, 2] { for (r_root, r_mid, r_leaf) in [(0usize, 1usize, 2usize), (1, 0, 2), (0, 2, 1)] { for order in [[0usize, 1, 2], [2, 1, 0]] {
+        n += 1;
+        let sb = Sandbox::new("c20q", n);
+        for (nm, t) in RULE_FILES { sb.write(&format!("{}.rsca", nm), t); }
+        sb.write("lex.wsca", words); sb.write("deroman.alias", INTO_ONLY); sb.write("roman.alias", FROM_ONLY);
+        let al = |k: usize| match k { 1 => " $deroman", 2 => " $roman", _ => "" };
+        let decl = [format!("@root{} [\"lex\"]:\n    \"{}\"\n", al(root_al), RULE_FILES[r_root].0), format!("@mid %root{}:\n    \"{}\"\n", al(mid_al), RULE_FILES[r_mid].0), format!("@leaf %mid{}:\n    \"{}\"\n", al(leaf_al), RULE_FILES[r_leaf].0)];
+        let cfg: String = order.iter().map(|i| decl[*i].clone()).collect();
+        sb.write("config.asca", &cfg);
+        let o = run_cli(&sb.dir, &["seq", ".", "-o", "-y"]); a.procs += 1;
+        let key = format!("pipeline-alias|{}", cfg.split_whitespace().collect::<Vec<_>>().join(" "));
+        let (into, _) = formats::parse_alias(INTO_ONLY); let (_, from) = formats::parse_alias(FROM_ONLY);
+        let none: Vec<String> = vec![];
+        let ws = formats::parse_wsca(words);
+        for (tag, files, tag_from) in [("root", vec![r_root], 0usize), ("mid", vec![r_root, r_mid], mid_al), ("leaf", vec![r_root, r_mid, r_leaf], leaf_al)] {
+            // a romaniser in the middle of the chain is read back by the next stage as typed text: only the queried tag's own romaniser is claimed,
+            // and only when no earlier stage of its chain has one
+            if tag == "leaf" && mid_al == 2 { continue; }
+            let groups: Vec<RuleGroup> = files.iter().flat_map(|f| formats::parse_rsca(RULE_FILES[*f].1)).collect();
+            let Out::Ok(Ok(one)) = guarded(5_000_000, || asca::run(&groups, &ws, if root_al == 1 { &into } else { &none }, if tag_from == 2 { &from } else { &none })) else { continue };
+            let want: Vec<String> = one.into_iter().filter(|x| !x.is_empty()).collect();
+            a.evals += 1;
+            match out_file(&sb, tag) {
+                Some((_, g)) if nonblank(&g) == want => a.ok += 1,
+                got => a.viols.push(Viol { key: format!("{}|seq|{}", key, tag), desc: format!("tag `{}`: `asca seq` wrote {:?}, one run of its rule history (root's deromaniser, its own romaniser) gives {:?} (exit {:?}, stderr {}); config: {}", tag, got, want, o.code, o.stderr.replace('\n', " | "), cfg), case: json!({"config": cfg, "alias_stages": true}) }),
+            }
+            a.evals += 1;
+            let jf = format!("{}.json", tag); let rf = format!("replay_{}.wsca", tag);
+            let _ = run_cli(&sb.dir, &["conv", "tag", tag, "-p", ".", "-r", "-o", &jf]); a.procs += 1;
+            let _ = run_cli(&sb.dir, &["run", "-j", &jf, "-o", &rf]); a.procs += 1;
+            match sb.read(&rf) {
+                Some(g) if nonblank(&g) == want => a.ok += 1,
+                got => a.viols.push(Viol { key: format!("{}|export|{}", key, tag), desc: format!("tag `{}`: `conv tag {} -r` + `run -j` gives {:?}, `asca seq` / the library give {:?}; exported json: {}; config: {}", tag, tag, got, want, sb.read(&jf).unwrap_or_default().split_whitespace().collect::<Vec<_>>().join(" "), cfg), case: json!({"config": cfg, "alias_stages": true}) }),
+            }
+        }
+    } } } } }
+    cleanup("c20q");
+}
+
 /// chains root <- mid <- leaf in which root and mid list TWO rule files each (every ordered pair of the three files, no filter) and the leaf one;
 /// declared forwards and backwards. These are the shapes in which the order of an ancestor's own entries matters to the rule history
 fn chain_configs() -> Vec<(Vec<Tag>, Vec<usize>)> {
@@ -399,6 +447,8 @@ pub fn staged_pipelines_for_c10() -> (usize, u64, u64, Vec<Viol>) {
         }
     }, |a| t.merge(a));
     cleanup("c10p");
+    // pipelines whose tags name different romanisation files (see `pipeline_alias_box`)
+    let mut tp = Acc::default(); pipeline_alias_box(&mut tp); t.merge(tp);
     (shapes.len(), t.procs, t.ok, t.viols)
 }
 
@@ -418,6 +468,11 @@ pub fn run() -> i32 {
     r.boxes.push(json!({"box": "one tag, romanisation file with both sections, two or three rule files in every order: seq == one library run == conv tag + run -j", "comparisons": tal.evals, "cli_processes": tal.procs, "held": tal.ok}));
     r.guard(tal.ok >= 80, "alias-stage box: at least 40 comparisons held");
     t.merge(tal);
+    let mut tpa = Acc::default();
+    pipeline_alias_box(&mut tpa);
+    r.boxes.push(json!({"box": "three-tag pipelines whose tags name different romanisation files (root: @into only, daughters: @from only): seq == one library run == conv tag -r + run -j, for every tag", "comparisons": tpa.evals, "cli_processes": tpa.procs, "held": tpa.ok}));
+    r.guard(tpa.ok >= 100, "pipeline alias box: at least 100 comparisons held");
+    t.merge(tpa);
     let shapes = shape_configs();
     let mut ts = Acc::default();
     par_fold(shapes.len(), 4, Acc::default, |i, a| shape_case(i, &shapes[i].0, &shapes[i].1, a), |a| ts.merge(a));
